@@ -224,6 +224,10 @@ def classify_rest(e, sc, k):
             if a in MAYBE_ALIAS_CALLS:
                 return "alias" if base in ("opcol", "alias", "param", "external") else "fresh" if base in ("fresh", "delegate") else "unknown"
             if a in VECTOR_FRESH_METHODS:
+                # NumPy's `copy=` keyword: `x.astype(dtype, copy=False)` hands back x itself when nothing is converted
+                nocopy = any(kw.arg == "copy" and not (isinstance(kw.value, ast.Constant) and kw.value.value is True) for kw in e.keywords)
+                if nocopy:
+                    return "alias" if base in ("opcol", "alias", "param", "external") else "fresh" if base in ("fresh", "delegate") else "unknown"
                 return "fresh"
             if isinstance(f.value, ast.Attribute) and f.value.attr in ("str", "dt", "re"):
                 return "fresh"        # proxy call: np.strings / dt / regex function result
